@@ -9,7 +9,20 @@ LEVEL = 'model_checking'
 
 def xml_for(d):
     """the XML file of a synthetic description (as MC_Protocol defines it)"""
-    out = ['<?xml version="1.0"?>', '<protocol name="p_%s">' % d['tag'], ' <interface name="%s" version="%d">' % (d['name'], d['version'])]
+    return xml_for_many([d])
+
+
+def xml_for_many(ds):
+    """one protocol file holding several descriptions, in this order (a file is loaded description by description)"""
+    out = ['<?xml version="1.0"?>', '<protocol name="p_%s">' % '_'.join(d['tag'] for d in ds)]
+    for d in ds:
+        out += _iface_xml(d)
+    out += ['</protocol>', '']
+    return '\n'.join(out)
+
+
+def _iface_xml(d):
+    out = [' <interface name="%s" version="%d">' % (d['name'], d['version'])]
     for mn, args in d['msgs'].items():
         out.append('  <request name="%s">' % mn)
         for a in args:
@@ -25,8 +38,8 @@ def xml_for(d):
         for x in e['entries']:
             out.append('   <entry name="%s" value="%d"/>' % (x['name'], x['value']))
         out.append('  </enum>')
-    out += [' </interface>', '</protocol>', '']
-    return '\n'.join(out)
+    out += [' </interface>']
+    return out
 
 
 def load_orders(ctx, rep):
@@ -61,11 +74,30 @@ def load_orders(ctx, rep):
         out = m.Output(False, False, m.stream.Null(), m.stream.Null())
         for o in prefixes:
             proto.dump_all()
+            # the same order of descriptions, spread over files in some way: one description per file, or consecutive ones
+            # sharing a file (a protocol file usually describes several interfaces)
+            groups, cur = [], []
             for tag in o['order']:
-                proto.load(paths[tag], out)
-            sig = 'load order ' + ' '.join(o['order'])
+                if any(descs[t]['name'] == descs[tag]['name'] for t in cur):
+                    groups.append(cur)        # (one file does not describe the same interface twice)
+                    cur = []
+                cur.append(tag)
+                if ctx.rnd.random() < 0.5:
+                    groups.append(cur)
+                    cur = []
+            if cur:
+                groups.append(cur)
+            for g in groups:
+                if len(g) == 1:
+                    proto.load(paths[g[0]], out)
+                else:
+                    fp = os.path.join(tmp, 'multi-' + '-'.join(g) + '.xml')
+                    if not os.path.exists(fp):
+                        open(fp, 'w').write(xml_for_many([descs[t] for t in g]))
+                    proto.load(fp, out)
+            sig = 'load order ' + ' '.join(o['order']) + ' in files ' + ' | '.join('+'.join(g) for g in groups)
             rep.case(sig)
-            rp = {'kind': 'order', 'order': o['order']}
+            rp = {'kind': 'order', 'order': o['order'], 'groups': groups}
             for nm, ver in o['versions'].items():
                 got = proto.interfaces.get(nm)
                 if got is None:
@@ -206,6 +238,6 @@ def replay(ctx, data):
         print('the tool answers', ask(m, data['q']))
         return True
     if data['kind'] == 'order':
-        print('order', [d['body'] for d in data['order']])
+        print('order of loading', data['order'], 'spread over files', data.get('groups'))
         return True
     return sessionprop.replay_session(ctx, data, relevant('C07'))
